@@ -29,6 +29,7 @@ NEGATIVE = [  # (Bug, property that must be violated)
     ("key_no_sel", "CacheTransparent"),
     ("key_no_ent", "CacheTransparent"),
     ("get_err_fails", "CacheTransparent"),
+    ("get_ctxerr_fails", "CacheTransparent"),
     ("empty_is_hit", "CacheTransparent"),
     ("store_errors", "StoredOnlyIfAllowed"),
     ("store_non2xx", "StoredOnlyIfAllowed"),
@@ -385,7 +386,7 @@ def model_check(ctx, quick):
     else:
         ctx.tlc_must_pass(SPEC_DIRS, "MC_EntityCache", "MC_EntityCache_t.cfg", timeout=3000, workers=8, tag="mc-entity-cache-3req-small-menu")
         ctx.tlc_must_pass(SPEC_DIRS, "MC_EntityCache", "MC_EntityCache_t2.cfg", timeout=3000, workers=8, tag="mc-entity-cache-2req-full-menu")
-    negs = [n for n in NEGATIVE if n[0] in ("partial_as_full", "key_no_sel", "private_ignored")] if quick else NEGATIVE
+    negs = [n for n in NEGATIVE if n[0] in ("partial_as_full", "key_no_sel", "private_ignored", "get_ctxerr_fails")] if quick else NEGATIVE
     for bug, prop in negs:
         r = ctx.tlc(SPEC_DIRS, "MC_EntityCache", "MC_EntityCache_neg.cfg", timeout=600, workers=4, count=False,
                     env={"C16_BUG": bug}, tag="mc-negative-" + bug)
@@ -439,6 +440,11 @@ def run(ctx):
     if quick:
         rng.shuffle(bfs)
         bfs = bfs[:700]
+    # every error CLASS of a failing GetMany / SetMany (plain, wrapping context.DeadlineExceeded / Canceled, net timeout) on the
+    # single-entity and the batch-entity path, exhaustively (one request on an empty cache)
+    gk = ctx.tlc_must_pass(SPEC_DIRS, "Gen_EntityCache", "Gen_EntityCache_classes.cfg", timeout=900, workers=4, deadlock=False,
+                           tag="gen-histories-error-classes")
+    classes = [p["hist"] for p in gk.printed if "hist" in p]
     nsim = 700 if quick else 20000
     gs = ctx.tlc_must_pass(SPEC_DIRS, "Gen_EntityCache", "Gen_EntityCache_sim.cfg", timeout=1800, workers=1, deadlock=False,
                            simulate=nsim, depth=90, seed=ctx.seed, tag="gen-histories-simulate")
@@ -447,13 +453,17 @@ def run(ctx):
         if "hist" in p:
             sim[lib.sha(p["hist"])] = p["hist"]
     sim = list(sim.values())
-    ctx.log("histories: bfs %d (of %d), simulate %d distinct" % (len(bfs), n_bfs_total, len(sim)))
+    ctx.log("histories: bfs %d (of %d), simulate %d distinct, error classes %d" % (len(bfs), n_bfs_total, len(sim), len(classes)))
     for i, h in enumerate(bfs):
         c, e = hist_to_case("b-%06d" % i, h, tables, rng, 2)
         cases.append(c)
         expected[c["id"]] = e
     for i, h in enumerate(sim):
         c, e = hist_to_case("s-%06d" % i, h, tables, rng, 2)
+        cases.append(c)
+        expected[c["id"]] = e
+    for i, h in enumerate(classes):
+        c, e = hist_to_case("k-%06d" % i, h, tables, rng, 2)
         cases.append(c)
         expected[c["id"]] = e
     # ---- 2c. concurrent pairs of requests sharing the cache (model-checked while generating) --------------------------
@@ -563,7 +573,7 @@ def run(ctx):
     if conc_total and conc_sched_realised < conc_total:
         ctx.notes.append("%d of %d concurrent schedules were not realised step by step (validated as executed)" % (
             conc_total - conc_sched_realised, conc_total))
-    n_hist = len(bfs) + len(sim)
+    n_hist = len(bfs) + len(sim) + len(classes)
     nontrivial = 0
     for cid, e in expected.items():
         if any(s["hit"] == 1 or 0 < s["found"] < s["n"] for rq in e for s in rq):
